@@ -36,6 +36,21 @@ def blocks_of(kind, atoms, mtxs):
         return [[("lock", m), ("ld", o), ("st", o), ("unlock", m)] for o in atoms for m in mtxs]
     if kind == "try":
         return [[("trylock", m), ("tunlock", m)] for m in mtxs]
+    # condvar blocks (one mutex m, one condvar cv, a flag s): wait is three abstract instructions (see Dpor.tla)
+    if kind == "cvw":        # lock; wait; unlock
+        return [[("lock", m), ("cvwait", "cv"), ("cvblock", "none"), ("lock", m), ("unlock", m)] for m in mtxs[:1]]
+    if kind == "cvwld":      # lock; wait; read the flag; unlock
+        return [[("lock", m), ("cvwait", "cv"), ("cvblock", "none"), ("lock", m), ("ld", "s"), ("unlock", m)] for m in mtxs[:1]]
+    if kind == "cvset1":     # set the flag under the lock, then notify_one outside
+        return [[("lock", m), ("st", "s"), ("unlock", m), ("notify1", "cv")] for m in mtxs[:1]]
+    if kind == "cvsetall":
+        return [[("lock", m), ("st", "s"), ("unlock", m), ("notifyall", "cv")] for m in mtxs[:1]]
+    if kind == "cvn1in":     # notify_one while holding the lock
+        return [[("lock", m), ("st", "s"), ("notify1", "cv"), ("unlock", m)] for m in mtxs[:1]]
+    if kind == "n1":
+        return [[("notify1", "cv")]]
+    if kind == "nall":
+        return [[("notifyall", "cv")]]
     if kind == "rdld":
         return [[("read", "l"), ("ld", o), ("unlockr", "l")] for o in atoms]
     if kind == "rdst":
@@ -148,7 +163,11 @@ def to_dsl(p, name):
         nreg = 0
         pending_clone = False
         spawned_yet = False
+        skip = 0
         for i, (op, o) in enumerate(code, start=1):
+            if skip:
+                skip -= 1
+                continue
             if op == "spawnall":
                 spawned_yet = True
             if op == "ld":
@@ -201,6 +220,11 @@ def to_dsl(p, name):
                 th.append(dsl.unpark(o))
             elif op == "join":
                 th.append(dsl.join(int(o[1:])))
+            elif op == "cvwait":
+                th.append(I("cvwait", o, o2=code[i + 1][1]))       # code[i + 1] (0-based) is the re-lock: its mutex
+                skip = 2                                               # "cvblock" and the re-lock are part of Condvar::wait
+            elif op in ("notify1", "notifyall"):
+                th.append(I(op, o))
             elif op == "ntf":
                 pass
             else:
